@@ -500,17 +500,26 @@ func returnsOf(f *ssa.Function) []ssa.Instruction {
 	return out
 }
 
-// loopOf returns the header of a loop containing the instruction, if any.
+// loopOf returns the header of the innermost loop containing the instruction, if any.
 func loopOf(in ssa.Instruction) *ssa.BasicBlock {
 	b := in.Block()
+	var best *ssa.BasicBlock
+	bestN := 1 << 30
 	for _, h := range b.Parent().Blocks {
+		isHdr := false
 		for _, p := range h.Preds {
-			if h.Dominates(p) && loopBlocks(h)[b] {
-				return h
+			if h.Dominates(p) {
+				isHdr = true
 			}
 		}
+		if !isHdr {
+			continue
+		}
+		if lb := loopBlocks(h); lb[b] && len(lb) < bestN {
+			best, bestN = h, len(lb)
+		}
 	}
-	return nil
+	return best
 }
 
 // growsWithRound: v is (base.Nanoseconds() + delta.Nanoseconds()*int64(round)) * const, in any order.
